@@ -154,6 +154,13 @@ func (router *Router) FindRoute(req *http.Request) (*routers.Route, map[string]s
 		return nil, nil, &routers.RouteError{Reason: routers.ErrPathNotFound.Error()}
 	}
 
+	if server != nil {
+		// the stored route is shared: return a copy that names the server the request was matched through
+		r := *route
+		r.Server = server
+		route = &r
+	}
+
 	if pathParams == nil {
 		pathParams = make(map[string]string, len(paramValues))
 	}
